@@ -125,6 +125,7 @@ type Exec struct {
 	spawned  []string
 	relyTouched []relyLoc
 	lockChecks bool
+	axioms   []*Term // global axioms of the memory model (independent of program point)
 }
 
 type caseDef struct {
@@ -136,6 +137,9 @@ func NewExec(w *World, fnName string) *Exec {
 	ex := &Exec{w: w, ctx: NewCtx(), trusted: map[string]bool{}, compSort: map[string]string{}, fnName: fnName,
 		written: map[string]bool{}, depthMax: 3, usedContracts: map[string]bool{}, inlined: map[string]bool{}}
 	ex.base = func(comp, sort string) *Term { return ex.ctx.Const(comp+"!pre", sort) }
+	sv := V("s!ax", SStr)
+	ln := App("str_len", SInt, sv)
+	ex.axioms = append(ex.axioms, &Term{Op: "forall", Sort: SBool, Bound: []Bound{{"s!ax", SStr}}, Pat: []*Term{ln}, Args: []*Term{Le(IntLit(0), ln)}})
 	return ex
 }
 
@@ -204,7 +208,12 @@ func (ex *Exec) assert(st *State, kind, name string, tags []string, goal *Term, 
 	o := &Obligation{Name: ex.fnName + "#" + kind + ":" + name, Kind: kind, Tags: tags, Goal: goal, PC: st.pc,
 		NAssume: len(ex.assumes), NLines: len(ex.ctx.lines), Pos: pos, Func: ex.fnName, Expect: "unsat"}
 	o.Values = append(o.Values, ex.values...)
+	o.Values = append(o.Values, explainGoal(goal, "goal", 0)...)
 	ex.obls = append(ex.obls, o)
+	if kind == "post" {
+		// postconditions are proved independently of each other
+		return
+	}
 	ex.assume(st, goal)
 }
 
@@ -517,14 +526,20 @@ func (fr *Frame) merge(b *ssa.BasicBlock, preds []*ssa.BasicBlock, out map[*ssa.
 		if c == nil {
 			c = TTrue
 		}
-		conds[i] = And(out[p].pc, c)
+		conds[i] = pcAnd(out[p].pc, c)
 	}
-	st := &State{heap: map[string]*Term{}}
+	st := &State{heap: map[string]*Term{}, base: out[preds[0]].base}
 	if len(preds) == 1 {
 		st = out[preds[0]].clone()
-		st.pc = ex.ctx.Abbrev("pc", conds[0])
+		st.pc = conds[0]
 	} else {
-		st.pc = ex.ctx.Abbrev("pc", Or(conds...))
+		var rel []*Term
+		st.pc, rel = mergeConds(conds)
+		if st.pc.Op == "or" {
+			st.pc = ex.ctx.Abbrev("pc", st.pc)
+		}
+		absConds := conds
+		conds = rel
 		comps := map[string]bool{}
 		for _, p := range preds {
 			for k := range out[p].heap {
@@ -547,7 +562,7 @@ func (fr *Frame) merge(b *ssa.BasicBlock, preds []*ssa.BasicBlock, out map[*ssa.
 		seen := map[*ssa.Defer]int{}
 		for i, p := range preds {
 			for _, d := range out[p].defers {
-				c := And(conds[i], d.cond)
+				c := And(absConds[i], d.cond)
 				if j, ok := seen[d.instr]; ok {
 					st.defers[j].cond = Or(st.defers[j].cond, c)
 				} else {
@@ -635,12 +650,17 @@ func (fr *Frame) mergeReturns() (*State, []Val) {
 	if len(rets) == 1 {
 		return rets[0].st, rets[0].vals
 	}
-	st := &State{heap: map[string]*Term{}}
+	st := &State{heap: map[string]*Term{}, base: rets[0].st.base}
 	conds := make([]*Term, len(rets))
 	for i, r := range rets {
 		conds[i] = r.st.pc
 	}
-	st.pc = ex.ctx.Abbrev("pc.exit", Or(conds...))
+	var rel []*Term
+	st.pc, rel = mergeConds(conds)
+	if st.pc.Op == "or" {
+		st.pc = ex.ctx.Abbrev("pc.exit", st.pc)
+	}
+	conds = rel
 	comps := map[string]bool{}
 	for _, r := range rets {
 		for k := range r.st.heap {
